@@ -105,6 +105,9 @@ func (c *Authority) CreateAggregateQC(view hotstuff.View, timeouts []hotstuff.Ti
 
 // VerifyPartialCert verifies a single partial certificate.
 func (c *Authority) VerifyPartialCert(cert hotstuff.PartialCert) error {
+	if cert.Signature() == nil {
+		return fmt.Errorf("partial certificate has nil signature")
+	}
 	block, ok := c.blockchain.Get(cert.BlockHash())
 	if !ok {
 		return fmt.Errorf("block not found: %v", cert.BlockHash())
@@ -148,6 +151,9 @@ func (c *Authority) VerifyTimeoutCert(tc hotstuff.TimeoutCert) error {
 	// view 0 TC is always valid.
 	if tc.View() == 0 {
 		return nil
+	}
+	if tc.Signature() == nil {
+		return fmt.Errorf("timeout certificate has nil signature (view=%d)", tc.View())
 	}
 	quorumSize := c.config.QuorumSize()
 	participants := tc.Signature().Participants()
